@@ -11,6 +11,7 @@ import (
 	"fmt"
 	"go/token"
 	"go/types"
+	"sort"
 	"strings"
 
 	"golang.org/x/tools/go/ssa"
@@ -1577,60 +1578,85 @@ func c18R4(c *Ctx) {
 	const R4 = "C18.R4.format-guard"
 	c.Expect(R4, 5)
 	c18Forwarding(c, R4)
-	put := c.P.Fn("registry/remote/credentials", "FileStore.Put")
-	if put == nil {
+	if c.P.Fn("registry/remote/credentials", "FileStore.Put") == nil {
 		c.LostAnchor(R4, "(*~/registry/remote/credentials.FileStore).Put")
 		return
 	}
-	pn := FnName(put)
-	puts := CallsTo(put, "(*"+c18Cfg+").PutCredential")
-	if len(puts) == 0 {
-		c.LostAnchor(R4, pn+": call of Config.PutCredential")
+	// who may call Config.PutCredential: every caller in the module outside the config package, whatever
+	// store type it belongs to, refuses when plaintext puts are disabled and validates the credential first
+	var callers []*ssa.Function
+	for f := range c.P.All {
+		if !inModule(f) || len(f.Blocks) == 0 || fnPkgPath(f) == pkgPath(c18CfgPkg) {
+			continue
+		}
+		if len(CallsTo(f, "(*"+c18Cfg+").PutCredential")) > 0 {
+			callers = append(callers, f)
+		}
+	}
+	sort.Slice(callers, func(i, j int) bool { return FnName(callers[i]) < FnName(callers[j]) })
+	if len(callers) == 0 {
+		c.LostAnchor(R4, "a call of Config.PutCredential outside the config package")
 		return
 	}
-	disT, disF := BoolTests(put, c11FieldReads(put, "~/registry/remote/credentials.FileStore.DisablePut"))
-	_ = disT
-	// the validator: a callee taking the credential whose body looks for ':' in Username
-	var valNil []Edge
-	for _, call := range Calls(put, func(string) bool { return true }) {
-		g := StaticCallee(call)
-		if g == nil || !inModule(g) || ErrResultIndex(g.Signature) < 0 {
-			continue
-		}
-		looks := false
-		for _, t := range Calls(g, func(n string) bool {
-			return n == "strings.ContainsRune" || n == "strings.Contains" || n == "strings.IndexByte" || n == "strings.IndexRune" || n == "strings.ContainsAny" || n == "strings.Index"
-		}) {
-			a := t.Common().Args
-			colon := false
-			if k, ok := constInt(a[1]); ok && k == ':' {
-				colon = true
+	for _, put := range callers {
+		pn := FnName(put)
+		puts := CallsTo(put, "(*"+c18Cfg+").PutCredential")
+		// refusal: the !DisablePut edge of a FileStore, or the AllowPlaintextPut edge of the store options
+		_, disF := BoolTests(put, c11FieldReads(put, "~/registry/remote/credentials.FileStore.DisablePut"))
+		allowT, _ := BoolTests(put, c11FieldReads(put, "~/registry/remote/credentials.StoreOptions.AllowPlaintextPut"))
+		allowed := append(append([]Edge{}, disF...), allowT...)
+		for i, p := range puts {
+			sfx := ""
+			if i > 0 {
+				sfx = fmt.Sprintf("#%d", i+1)
 			}
-			if s, ok := constString(a[1]); ok && s == ":" {
-				colon = true
+			// the validator: a callee handed the very credential that is put, whose body looks for ':' in Username
+			credArg := p.Common().Args[len(p.Common().Args)-1]
+			var valNil []Edge
+			for _, call := range Calls(put, func(string) bool { return true }) {
+				g := StaticCallee(call)
+				if g == nil || !inModule(g) || ErrResultIndex(g.Signature) < 0 {
+					continue
+				}
+				looks := false
+				for _, t := range Calls(g, func(n string) bool {
+					return n == "strings.ContainsRune" || n == "strings.Contains" || n == "strings.IndexByte" || n == "strings.IndexRune" || n == "strings.ContainsAny" || n == "strings.Index"
+				}) {
+					a := t.Common().Args
+					colon := false
+					if k, ok := constInt(a[1]); ok && k == ':' {
+						colon = true
+					}
+					if s, ok := constString(a[1]); ok && s == ":" {
+						colon = true
+					}
+					if colon && isFieldLoad(a[0], "Username") {
+						looks = true
+					}
+				}
+				if !looks {
+					continue
+				}
+				same := false
+				for _, a := range call.Common().Args {
+					if c11SameLoc(a, credArg) {
+						same = true
+					}
+				}
+				if !same {
+					continue
+				}
+				if e := ErrOf(call); e != nil {
+					ne, _, _ := NilTests(put, Aliases(e))
+					valNil = append(valNil, ne...)
+				}
 			}
-			if colon && isFieldLoad(a[0], "Username") {
-				looks = true
-			}
+			ok := len(allowed) > 0 && MustPass(p.(ssa.Instruction), newCut().Edges(allowed...))
+			c.Check(R4, pn+"|DisablePut-checked"+sfx, p.Pos(), ok, ifelse(ok, "PutCredential is reached only on the plaintext-put-allowed edge (!DisablePut / AllowPlaintextPut)", "PutCredential is reachable although plaintext puts are disabled: plaintext credentials are written against the caller's wish"))
+			ok = len(valNil) > 0 && MustPass(p.(ssa.Instruction), newCut().Edges(valNil...))
+			c.Check(R4, pn+"|colon-rule-checked"+sfx, p.Pos(), ok, ifelse(ok, "PutCredential is reached only behind the successful username-colon validation of the credential it stores",
+				"PutCredential is reachable without the username-colon validation of the credential it stores: base64(user:pass) is then split at the wrong colon and Get returns a different credential"))
 		}
-		if !looks {
-			continue
-		}
-		if e := ErrOf(call); e != nil {
-			ne, _, _ := NilTests(put, Aliases(e))
-			valNil = append(valNil, ne...)
-		}
-	}
-	for i, p := range puts {
-		sfx := ""
-		if i > 0 {
-			sfx = fmt.Sprintf("#%d", i+1)
-		}
-		ok := len(disF) > 0 && MustPass(p.(ssa.Instruction), newCut().Edges(disF...))
-		c.Check(R4, pn+"|DisablePut-checked"+sfx, p.Pos(), ok, ifelse(ok, "PutCredential is reached only on the !DisablePut edge", "PutCredential is reachable although DisablePut is set: plaintext credentials are written against the caller's wish"))
-		ok = len(valNil) > 0 && MustPass(p.(ssa.Instruction), newCut().Edges(valNil...))
-		c.Check(R4, pn+"|colon-rule-checked"+sfx, p.Pos(), ok, ifelse(ok, "PutCredential is reached only behind the successful username-colon validation",
-			"PutCredential is reachable without the username-colon validation: base64(user:pass) is then split at the wrong colon and Get returns a different credential"))
 	}
 }
 
@@ -1780,6 +1806,13 @@ var c18Mutants = []Mutant{
 	{Name: "delete-normalises-address", File: "registry/remote/credentials/file_store.go",
 		Old: "\treturn fs.config.DeleteCredential(serverAddress)", New: "\treturn fs.config.DeleteCredential(strings.ToLower(serverAddress))",
 		Expect: "C18.R4.format-guard|(*~/registry/remote/credentials.FileStore).Delete|forwards-to-DeleteCredential"},
+	{Name: "dynamic-store-puts-directly", File: "registry/remote/credentials/store.go",
+		Old:    "\tif err := ds.getStore(serverAddress).Put(ctx, serverAddress, cred); err != nil {\n\t\treturn err\n\t}\n",
+		New:    "\tif ds.getHelperSuffix(serverAddress) != \"\" || !ds.options.AllowPlaintextPut {\n\t\tif err := ds.getStore(serverAddress).Put(ctx, serverAddress, cred); err != nil {\n\t\t\treturn err\n\t\t}\n\t} else if err := ds.config.PutCredential(serverAddress, cred); err != nil {\n\t\treturn err\n\t}\n",
+		Expect: "C18.R4.format-guard|(*~/registry/remote/credentials.DynamicStore).Put|colon-rule-checked"},
+	{Name: "validator-applied-to-other-credential", File: "registry/remote/credentials/file_store.go",
+		Old: "\tif err := validateCredentialFormat(cred); err != nil {", New: "\tif err := validateCredentialFormat(auth.EmptyCredential); err != nil {",
+		Expect: "C18.R4.format-guard|(*~/registry/remote/credentials.FileStore).Put|colon-rule-checked"},
 	{Name: "colon-check-dropped", File: "registry/remote/credentials/file_store.go",
 		Old:    "\tif err := validateCredentialFormat(cred); err != nil {\n\t\treturn err\n\t}\n",
 		New:    "\t_ = validateCredentialFormat\n",
